@@ -15,6 +15,8 @@ Decided:
     same loop iteration, never the loop-initial or previous cursor value.
  E5 wrap-safe indices (H-ctr): the free-running ring indices are never order-compared raw and never combined with
     non-wrapping arithmetic anywhere in the queue code.
+ E8 a blocking helper pops the token its own add returned (token provenance).  E9 can_pop is folded over pairs of index
+    values including across the wrap: true iff they differ.
  E7 free-descriptor query: available_desc is folded over (in-use count, indirect flag, SIZE): it reports 0 exactly
     when every descriptor is in use and, for queues without indirect descriptors, exactly SIZE - in-use.
 Not decided: exactly-once over histories (needs the free-list heap invariant).
@@ -27,7 +29,7 @@ EXPLANATION = ("add and pop_used are path-enumerated (loop-containing helpers ke
                "paths are checked effect-free; the capacity predicate is folded over all (SIZE<=16, in-use, #inputs, #outputs, "
                "indirect) combinations against the specification predicate; the consumption path is checked for order and "
                "provenance; free-running indices are checked for wrapping-only arithmetic in every queue function.")
-FLOORS = {'used_ring_reads': 2, 'free_queries': 1, 'add_paths': 2, 'pop_paths': 2, 'capacity_rows': 1000, 'counter_ops': 2}
+FLOORS = {'used_ring_reads': 2, 'free_queries': 1, 'add_paths': 2, 'pop_paths': 2, 'capacity_rows': 1000, 'counter_ops': 2, 'helper_pops': 1}
 
 
 def counters_rule(F, R, rule):
@@ -70,6 +72,68 @@ def run(F, R):
     R.count('relink_sites', e6_relink(F, R, M, pop_id))
     e7_available(F, R, M, add_id)
     e2b_all_slots(F, R, M, lfield)
+    e8_helper_token(F, R, M, roles)
+    e9_can_pop(F, R, M, by['can_pop'][0], lfield)
+
+
+def e8_helper_token(F, R, M, roles, rule='E8'):
+    """A blocking helper (it adds, waits and pops in one call) releases the chain it submitted: the token handed to
+    pop_used is the result of its own add, never whatever the used ring shows next."""
+    by = {}
+    for k, v in roles.items():
+        by.setdefault(v, []).append(k)
+    n = 0
+    for hid in by.get('add_notify_wait_pop', []):
+        b = F.bodies[hid]
+        sg = supergraph(F, hid, opaque=lambda t, bb: bb['id'] in roles and bb['id'] != hid, tag='e8')
+        S = sg.sym
+        adds = [c.id for c in sg.calls(lambda d: roles.get(d.get('fn')) == 'add')]
+        for c in sg.calls(lambda d: roles.get(d.get('fn')) == 'pop_used'):
+            n += 1
+            tk = S.operand(c.id, c.d['args'][1])
+            from_add = derives_from(tk, lambda x: x[0] == 'call' and x[1] in adds)
+            other = [x for x in deep_subterms(S, tk) if x[0] == 'call' and roles.get(x[2]) in ('peek_used', 'can_pop')]
+            R.check(from_add and not other, rule, '%s:pops-own-token' % hid, site(sg, c), 'pop_used receives the token returned by this call\'s add',
+                    'the blocking helper pops %s instead of the token its own add returned: with another chain outstanding it consumes '
+                    'that chain\'s completion against the wrong buffers' % fmt(tk)[:80])
+    R.count('helper_pops', n)
+
+
+def e9_can_pop(F, R, M, can_pop_id, lfield, rule='E9'):
+    """"Something to consume" is decided by inequality of the two free-running indices, for every pair of values including
+    across the 16-bit wrap."""
+    sg = supergraph(F, can_pop_id)
+    where = fn_site(F, can_pop_id)
+    try:
+        paths = PathEnum(sg).run()
+    except PathLimit as e:
+        R.abstain(rule, '%s:table' % can_pop_id, str(e), where)
+        return
+    bad = None
+    rows = 0
+    for last, used in ((0, 0), (0, 1), (5, 5), (5, 6), (6, 5), (0xffff, 0), (0xffff, 0xffff), (0xfffe, 1), (1, 0xfffe), (0x8000, 0x7fff), (0x7fff, 0x8000), (0, 0xffff)):
+        def leaf(t, last=last, used=used):
+            if t[0] in ('load0', 'load') and t[1][2] and t[1][2][-1][0] == 'f' and t[1][2][-1][1] == lfield:
+                return last
+            if t[0] == 'call' and t[2].startswith(ATOMIC) and t[3]:
+                p_ = strip_ptr(t[3][0])
+                if p_[0] == 'ref' and M.loc_area(p_[1]) == 'used.idx':
+                    return used
+            raise Unfoldable(fmt(t)[:80])
+        fo = Folder(leaf)
+        try:
+            hit = [p for p in paths if path_holds(fo, p)]
+            got = fo.ev(hit[0].ret) if len(hit) == 1 and not hit[0].panicked else None
+        except Unfoldable as e:
+            R.abstain(rule, '%s:table' % can_pop_id, 'cannot fold: %s' % e, where)
+            return
+        rows += 1
+        if got != int(last != used):
+            bad = 'last consumed index %#x, device index %#x: reports %s' % (last, used, {1: 'a completion', 0: 'nothing to consume', None: '?'}[got])
+            break
+    R.tables += rows
+    R.check(bad is None, rule, '%s:table' % can_pop_id, where, 'true iff the indices differ (%d rows incl. wrap-around)' % rows,
+            'completion test: %s; after the device index wraps, completions are never seen (blocking helpers spin forever) or phantom ones are' % bad)
 
 
 def last_used_field(F, M, can_pop_id):
